@@ -258,7 +258,20 @@ def fingerprints_for(prop, tier, seed, n, start=0):
 
 
 def selfcheck(prop, tier, seed, n):
-    """-> dict(seeds_checked, reruns, hashseeds, mismatches, details)"""
+    """-> dict(seeds_checked, reruns, hashseeds, mismatches, details).  A mismatch must show twice to count: the
+    comparison is repeated once, so that a transient (an overloaded machine hitting a wall cap mid-world) is not
+    reported as non-determinism of the harness."""
+    r = _selfcheck_once(prop, tier, seed, n)
+    if r['mismatches']:
+        r2 = _selfcheck_once(prop, tier, seed, n)
+        r2['first_attempt_details'] = r['details']
+        if not r2['mismatches']:
+            r2['transient_mismatch_not_reproduced'] = True
+        return r2
+    return r
+
+
+def _selfcheck_once(prop, tier, seed, n):
     a = fingerprints_for(prop, tier, seed, n)
     b = fingerprints_for(prop, tier, seed, n)
     mism = []
